@@ -6,9 +6,11 @@ import (
 	"fmt"
 	"os"
 	"path/filepath"
+	"sort"
 	"strconv"
 	"strings"
 
+	"github.com/elastic/go-libaudit/v2/auparse"
 	"github.com/elastic/go-libaudit/v2/rule"
 	"github.com/elastic/go-libaudit/v2/rule/flags"
 
@@ -196,6 +198,61 @@ func c06Run(c *mon.Ctx) {
 		run(&rulegen.Spec{List: "exit", Action: "always", Syscalls: []rulegen.Syscall{{Text: strconv.Itoa(i), Num: i, Independent: true}}})
 		c.Add("syscall_bits", 1)
 	})
+	// (3b) a syscall NAME means a number of the rule's architecture: a name that this architecture's table does not
+	// have (but another one has, the host's in particular) has no bit there, so the rule cannot be built as asked
+	{
+		archs := make([]string, 0, len(auparse.AuditSyscalls))
+		for a := range auparse.AuditSyscalls {
+			archs = append(archs, a)
+		}
+		sort.Strings(archs)
+		byArch := map[string]map[string]int{}
+		allNames := map[string]bool{}
+		for _, a := range archs {
+			byArch[a] = map[string]int{}
+			for n, name := range auparse.AuditSyscalls[a] {
+				byArch[a][name] = n
+				allNames[name] = true
+			}
+		}
+		names := make([]string, 0, len(allNames))
+		for n := range allNames {
+			names = append(names, n)
+		}
+		sort.Strings(names)
+		type job struct{ arch, table, name string }
+		var jobs []job
+		for _, a := range archs {
+			for _, n := range names {
+				if _, ok := byArch[a][n]; !ok {
+					jobs = append(jobs, job{a, a, n})
+					if a == "i386" {
+						jobs = append(jobs, job{"b32", a, n})
+					}
+				}
+			}
+		}
+		c.ForEach(len(jobs), func(w, i int) {
+			j := jobs[i]
+			s := &rulegen.Spec{List: "exit", Action: "always", Filters: []rulegen.Filter{{LHS: "arch", Op: "=", RHS: j.arch, Field: uapi.Fields["arch"]}}, Syscalls: []rulegen.Syscall{{Text: j.name, Num: -1}}}
+			ev.Add(1)
+			c.Add("syscall_names_foreign_to_the_rule_arch", 1)
+			var wire rule.WireFormat
+			var err error
+			if p, st := mon.Try(func() { wire, err = rule.Build(s.Rule()) }); p != nil {
+				c.Violation("panic", fmt.Sprintf("Build panicked for -F arch=%s -S %s: %v\n%s", j.arch, j.name, p, st), s)
+			} else if err == nil {
+				d, _ := rulegen.Decode(wire)
+				var bits []int
+				for b := 0; b < 2048; b++ {
+					if d.Mask[b/32]&(1<<(uint(b)%32)) != 0 {
+						bits = append(bits, b)
+					}
+				}
+				c.Violation("syscall-name-not-in-arch-accepted", fmt.Sprintf("-F arch=%s -S %s was accepted although the %s syscall table has no %s; mask bits set: %v (under that architecture these are other syscalls)", j.arch, j.name, j.table, j.name, bits), s)
+			}
+		})
+	}
 	// (4) 0..64 filters accepted, 65 must be rejected (a field count of 65 cannot be represented)
 	for n := 0; n <= 66; n++ {
 		s := &rulegen.Spec{List: "exit", Action: "always"}
@@ -291,7 +348,7 @@ func c06Run(c *mon.Ctx) {
 func init() {
 	register(&mon.CheckSpec{
 		ID: "C06", Level: "exploration",
-		Rule: "cases = (1) grid: every list x action x every field name the library admits on that list x every operator the field class admits x V seeded boundary/random values (uids/gids at 0, 2^31-1, 2^31, 2^32-2, unset, -1; exit codes by number and errno name; msgtype by name and number; every perm subset; every filetype; arch names; a0-a3 decimal/hex/negative; string lengths 1-4096), (2) every inter-field comparison in both orders x {=,!=}, (3) every single syscall bit 0..2047, (4) 0..64 filters (65 must be rejected), (5) key-length limit, (6) string boundary lengths, (7) watches on an existing file, an existing directory, a missing path, symbolic links to a directory / to a file / dangling, and a directory reached through a link, with every permission subset and 0-2 keys, (8) seeded random multi-filter rules with syscall sets by number and by name and 0-3 keys. Every request goes through Build from a Rule struct and (when its strings are shell-safe) through flags.Parse+Build from text; the bytes are decoded at the UAPI offsets by an independent little-endian decoder and compared with the request. distinct_nontrivial = distinct requests (by text).",
+		Rule: "cases = (1) grid: every list x action x every field name the library admits on that list x every operator the field class admits x V seeded boundary/random values (uids/gids at 0, 2^31-1, 2^31, 2^32-2, unset, -1; exit codes by number and errno name; msgtype by name and number; every perm subset; every filetype; arch names; a0-a3 decimal/hex/negative; string lengths 1-4096), (2) every inter-field comparison in both orders x {=,!=}, (3) every single syscall bit 0..2047, (3b) every (architecture with a syscall table, syscall name of some other table that this table lacks) pair - incl. b32 - must be refused, (4) 0..64 filters (65 must be rejected), (5) key-length limit, (6) string boundary lengths, (7) watches on an existing file, an existing directory, a missing path, symbolic links to a directory / to a file / dangling, and a directory reached through a link, with every permission subset and 0-2 keys, (8) seeded random multi-filter rules with syscall sets by number and by name and 0-3 keys. Every request goes through Build from a Rule struct and (when its strings are shell-safe) through flags.Parse+Build from text; the bytes are decoded at the UAPI offsets by an independent little-endian decoder and compared with the request. distinct_nontrivial = distinct requests (by text).",
 		Assumptions: []string{
 			"expected codes come from internal/uapi (hand-written from linux/audit.h, self-tested against /usr/include/linux/audit.h in setup)",
 			"expected values are computed by the harness's own parsers; syscall names resolve through an x/sys/unix spot table where available, otherwise through the published table",
